@@ -5,6 +5,8 @@ import DriverLib.BatcherGlue
 import DriverLib.PureGlue
 import DriverLib.EngineGlue
 import DriverLib.WireGlue
+import DriverLib.ParGlue
+import DriverLib.OrphanGlue
 /-! JSON glue between the line protocol and the model's executable definitions (trusted). -/
 open Lean
 
@@ -90,6 +92,8 @@ def handle (c : String) (j : Json) : Json :=
   else if c.startsWith "batcher." then BatcherGlue.handle c j
   else if c.startsWith "engine." then EngineGlue.handle c j
   else if c.startsWith "wire." then WireGlue.handle c j
+  else if c.startsWith "par." then ParGlue.handle c j
+  else if c.startsWith "orphan." then OrphanGlue.handle c j
   else if c.startsWith "policy." || c.startsWith "strategy." || c.startsWith "outcome." then PureGlue.handle c j
   else err ("unknown-component " ++ c)
 
